@@ -210,7 +210,7 @@ func (env *evalEnv) eval(e Expr) cval {
 		case "*":
 			v := env.eval(x.X)
 			if v.lv != nil {
-				if pt, ok := derefType(v.typ); ok && fx.sortOf(pt) != v.lv.elemSort {
+				if pt, ok := derefType(v.typ); ok && (fx.sortOf(pt) != fx.realSort(v.lv.elemSort) || (v.lv.typ != nil && !types.Identical(pt, v.lv.typ))) {
 					// a view of the pointer at a type it does not have (a branch
 					// guarded by typeis that cannot be taken): an arbitrary value
 					srt := fx.sortOf(pt)
@@ -691,7 +691,8 @@ func (env *evalEnv) evalCall(x *ECall) cval {
 		if v.sort == "Str" {
 			return v
 		}
-		mem := env.heapGet("Mem.Int", "(Array Int (Array Int Int))")
+		bmn, bms := fx.byteMem()
+		mem := env.heapGet(bmn, bms)
 		return cval{t: fmt.Sprintf("(bstr (select %s (sptr %s)) (soff %s) (slen %s))", mem, v.t, v.t, v.t), sort: "Str", typ: types.Typ[types.String]}
 	case "typeis":
 		// typeis(iface, TypeName)
